@@ -29,80 +29,185 @@ theorem exactly_one (i : In) : ∃ r, Spec r i ∧ ∀ r', Spec r' i → r' = r 
   exact ((detect_spec i r').2 h).symm
 
 /-- Creation/update handlers are never invoked on an object marked for deletion. -/
-theorem no_create_update_on_marked (h : Handler) (i : In)
+theorem no_create_update_on_marked (h : Shape) (i : In)
     (hk : h.reason = some .create ∨ h.reason = some .update)
-    (hinv : invocable h i = true) : i.marked = false := by
+    (hinv : invocableS h i = true) : i.marked = false := by
   rcases i with ⟨d, m, b, o, df, ini⟩
-  rcases h with ⟨hr, hi, hd⟩
+  rcases h with ⟨hr, hi, hd, hn⟩
   cases d <;> cases m <;> cases b <;> cases o <;> cases df <;> cases ini <;>
-    rcases hk with hk | hk <;> simp_all [invocable, detect, detectReason, gate, handlerReasons]
+    rcases hk with hk | hk <;> simp_all [invocableS, detect, detectReason, gateS, handlerReasons]
 
 /-- … nor are `@kopf.on.field` handlers, which carry no cause kind of their own (`reason=None`, not
-    resuming) and are "effective only when the object is updated" (docs/handlers.rst): since /repo 345a874
-    the gate keeps them off the objects marked for deletion (before, a field changed shortly before the
-    deletion request made them run in the deletion cause). -/
-theorem no_field_on_marked (h : Handler) (i : In) (hk : h.reason = none) (hni : h.initial = false)
-    (hinv : invocable h i = true) : i.marked = false := by
+    resuming, `field_needs_change=True`) and are "effective only when the object is updated"
+    (docs/handlers.rst): since /repo 345a874 the gateS keeps them off the objects marked for deletion
+    (before, a field changed shortly before the deletion request made them run in the deletion cause). -/
+theorem no_field_on_marked (h : Shape) (i : In) (hk : h.reason = none) (hni : h.initial = false)
+    (hnc : h.needsChange = true) (hinv : invocableS h i = true) : i.marked = false := by
   rcases i with ⟨d, m, b, o, df, ini⟩
-  rcases h with ⟨hr, hi, hd⟩
+  rcases h with ⟨hr, hi, hd, hn⟩
   cases d <;> cases m <;> cases b <;> cases o <;> cases df <;> cases ini <;>
-    simp_all [invocable, detect, detectReason, gate, handlerReasons]
+    simp_all [invocableS, detect, detectReason, gateS, handlerReasons]
 
-/-- A handler without a cause kind (field or resuming) runs in handled causes only (create/update/
-    delete/resume): never for gone/released/no-op events; on a marked object only in the deletion cause,
-    i.e. while the framework's finalizer still holds the object — and then it is a resuming handler. -/
-theorem kindless_only_in_handled_causes (h : Handler) (i : In) (hk : h.reason = none)
-    (hinv : invocable h i = true) :
+/-- A handler without a cause kind (field, resuming, or a sub-handler) runs in handled causes only
+    (create/update/delete/resume): never for gone/released/no-op events; on a marked object only in the
+    deletion cause, i.e. while the framework's finalizer still holds the object — and then it is a resuming
+    handler or one that needs no change of a field (a sub-handler), never a field handler. -/
+theorem kindless_only_in_handled_causes (h : Shape) (i : In) (hk : h.reason = none)
+    (hinv : invocableS h i = true) :
     (detect i).reason ∈ handlerReasons ∧
-      (i.marked = true → (detect i).reason = .delete ∧ i.blocked = true ∧ h.initial = true) := by
+      (i.marked = true → (detect i).reason = .delete ∧ i.blocked = true ∧
+        (h.initial = true ∨ h.needsChange = false)) := by
   rcases i with ⟨d, m, b, o, df, ini⟩
-  rcases h with ⟨hr, hi, hd⟩
-  cases hi <;> cases hd <;> cases d <;> cases m <;> cases b <;> cases o <;> cases df <;> cases ini <;>
-    simp_all [invocable, detect, detectReason, gate, handlerReasons]
+  rcases h with ⟨hr, hi, hd, hn⟩
+  cases hi <;> cases hd <;> cases hn <;> cases d <;> cases m <;> cases b <;> cases o <;> cases df <;>
+    cases ini <;> simp_all [invocableS, detect, detectReason, gateS, handlerReasons]
 
 -- regression of the repaired behaviour: the former witness (a field handler in a deletion cause) is rejected
-example : invocable ⟨none, false, false⟩ ⟨false, true, true, false, true, false⟩ = false := by decide
+example : invocableS ⟨none, false, false, true⟩ ⟨false, true, true, false, true, false⟩ = false := by decide
 -- … while the same handler still runs for an update of an unmarked object
-example : invocable ⟨none, false, false⟩ ⟨false, false, true, false, true, false⟩ = true := by decide
+example : invocableS ⟨none, false, false, true⟩ ⟨false, false, true, false, true, false⟩ = true := by decide
+
+/-! ### The top-level view used by the C14/C03 models is the same gate -/
+
+/-- `gate` (top-level handlers: reason-less and not resuming = on.field) is `gateS` on the handler's shape. -/
+theorem gate_eq_shape (h : Handler) (c : Cause) : gate h c = gateS h.shape c := by
+  rcases h with ⟨hr, hi, hd⟩
+  rcases c with ⟨cr, ci, cm⟩
+  cases hr <;> cases hi <;> cases cm <;> simp [gate, gateS, Handler.shape]
+
+theorem invocable_eq_shape (h : Handler) (i : In) : invocable h i = invocableS h.shape i := by
+  simp [invocable, invocableS, gate_eq_shape]
+
+/-- the shapes of top-level handlers are well-formed -/
+theorem shape_wellFormed (h : Handler) : wellFormed h.shape = true := by
+  rcases h with ⟨hr, hi, hd⟩
+  cases hr <;> cases hi <;> simp [wellFormed, Handler.shape]
+
+/-! ### Sub-handlers are of the kind of their parent (/repo 17e5c42) -/
+
+/-- A sub-handler-shaped handler (no cause kind, not resuming, no change of a field needed: what
+    `kopf.execute(fns=…)` builds, and what `@kopf.subhandler`/`kopf.register` build under every parent but
+    on.update/on.field) passes the gateS for EVERY cause — marked or not: it is selected iff its own
+    filters match (`Tie.sub_gate_is_match` says the same of the extracted code). -/
+theorem sub_of_delete_selected (h : Shape) (c : Cause) (hk : h.reason = none)
+    (hni : h.initial = false) (hnc : h.needsChange = false) : gateS h c = true := by
+  rcases h with ⟨hr, hi, hd, hn⟩
+  simp_all [gateS]
+
+/-- Whenever a (constructible) parent handler is invoked, each of its sub-handlers — inheriting
+    (`subOf p`) or plain (`plainSub`) — passes the gateS for that same cause: a sub-handler runs exactly
+    when its parent does (own filters aside). This is what 345a874 broke for deletion handlers. -/
+theorem sub_follows_parent (p : Shape) (i : In) (hw : wellFormed p = true) :
+    subInvocable p (subOf p) i = invocableS p i ∧ subInvocable p plainSub i = invocableS p i := by
+  rcases i with ⟨d, m, b, o, df, ini⟩
+  rcases p with ⟨pr, pi, pd, pn⟩
+  rcases pr with _ | pr
+  · cases pi <;> cases pn <;> cases m <;> cases d <;> cases b <;>
+      simp_all [wellFormed, subInvocable, invocableS, subOf, plainSub, gateS, detect, detectReason, handlerReasons]
+  · cases pr <;> cases pi <;> cases pn <;> cases m <;> cases d <;> cases b <;>
+      simp_all [wellFormed, subInvocable, invocableS, subOf, plainSub, gateS, detect, detectReason, handlerReasons]
+
+/-- well-formedness is what every constructible handler has: the decorators' shapes … -/
+theorem decorated_wellFormed (h : Shape) (hd : decorated h = true) : wellFormed h = true := by
+  rcases h with ⟨hr, hi, hd', hn⟩
+  cases hi <;> cases hn <;> cases hd' <;> simp_all [decorated, wellFormed]
+
+/-- … and sub-handlers at any depth (so `sub_follows_parent` applies to sub-sub-handlers as well). -/
+theorem sub_wellFormed (p : Shape) : wellFormed (subOf p) = true ∧ wellFormed plainSub = true := by
+  simp [wellFormed, subOf, plainSub]
+
+/-- The sub-handlers of a deletion handler are invoked in the deletion cause (marked and still held). -/
+theorem sub_of_delete_invocable (i : In) (hd : i.deleted = false) (hm : i.marked = true)
+    (hb : i.blocked = true) :
+    subInvocable ⟨some .delete, false, false, false⟩ (subOf ⟨some .delete, false, false, false⟩) i = true ∧
+    subInvocable ⟨some .delete, false, false, false⟩ plainSub i = true := by
+  rcases i with ⟨d, m, b, o, df, ini⟩
+  simp_all [subInvocable, invocableS, subOf, plainSub, gateS, detect, detectReason, handlerReasons]
+
+/-- … and only there: whatever the shape of the sub-handler. -/
+theorem sub_of_delete_only_while_held (p s : Shape) (i : In) (hk : p.reason = some .delete)
+    (hinv : subInvocable p s i = true) : i.deleted = false ∧ i.marked = true ∧ i.blocked = true := by
+  rcases i with ⟨d, m, b, o, df, ini⟩
+  rcases p with ⟨pr, pi, pd, pn⟩
+  cases d <;> cases m <;> cases b <;> cases o <;> cases df <;> cases ini <;>
+    simp_all [subInvocable, invocableS, detect, detectReason, gateS, handlerReasons]
+
+/-- Sub-handlers of creation/update/field handlers never run on an object marked for deletion,
+    whatever their own shape (they are reached through their parent only). -/
+theorem no_sub_of_create_update_field_on_marked (p s : Shape) (i : In)
+    (hk : p.reason = some .create ∨ p.reason = some .update ∨
+          (p.reason = none ∧ p.initial = false ∧ p.needsChange = true))
+    (hinv : subInvocable p s i = true) : i.marked = false := by
+  rcases i with ⟨d, m, b, o, df, ini⟩
+  rcases p with ⟨pr, pi, pd, pn⟩
+  cases d <;> cases m <;> cases b <;> cases o <;> cases df <;> cases ini <;>
+    rcases hk with hk | hk | hk <;>
+    simp_all [subInvocable, invocableS, detect, detectReason, gateS, handlerReasons]
+
+/-- Regression witness: the gateS of /repo 345a874..17e5c42 (`gateOld`) rejected the sub-handlers of a
+    deletion handler in the deletion cause (so the parent finished at once and the object was released
+    without their work); the current gateS selects them. -/
+theorem old_gate_sub_regression_witness :
+    gateOld plainSub ⟨.delete, false, true⟩ = false ∧ gateS plainSub ⟨.delete, false, true⟩ = true ∧
+    gateOld (subOf ⟨some .delete, false, false, false⟩) ⟨.delete, false, true⟩ = false ∧
+    gateS (subOf ⟨some .delete, false, false, false⟩) ⟨.delete, false, true⟩ = true := by decide
+
+/-- … and both gates agree everywhere else: on unmarked objects, and on every handler that is not a
+    sub-handler shape (the fix changed nothing but that). -/
+theorem old_gate_differs_only_for_subs (h : Shape) (c : Cause) :
+    gateOld h c = gateS h c ∨
+      (h.reason = none ∧ h.initial = false ∧ h.needsChange = false ∧ c.marked = true) := by
+  rcases h with ⟨hr, hi, hd, hn⟩
+  rcases c with ⟨cr, ci, cm⟩
+  cases hr <;> cases hi <;> cases hn <;> cases cm <;> simp [gateOld, gateS]
 
 /-- Deletion handlers only while marked for deletion and still held by the own finalizer. -/
-theorem delete_only_while_held (h : Handler) (i : In) (hk : h.reason = some .delete)
-    (hinv : invocable h i = true) :
+theorem delete_only_while_held (h : Shape) (i : In) (hk : h.reason = some .delete)
+    (hinv : invocableS h i = true) :
     i.deleted = false ∧ i.marked = true ∧ i.blocked = true := by
   rcases i with ⟨d, m, b, o, df, ini⟩
-  rcases h with ⟨hr, hi, hd⟩
+  rcases h with ⟨hr, hi, hd, hn⟩
   cases d <;> cases m <;> cases b <;> cases o <;> cases df <;> cases ini <;>
-    simp_all [invocable, detect, detectReason, gate, handlerReasons]
+    simp_all [invocableS, detect, detectReason, gateS, handlerReasons]
 
 /-- No change handler of any kind for gone / released / no-op events. -/
-theorem none_for_gone_free_noop (h : Handler) (i : In)
+theorem none_for_gone_free_noop (h : Shape) (i : In)
     (hr : detectReason i = .gone ∨ detectReason i = .free ∨ detectReason i = .noop) :
-    invocable h i = false := by
-  rcases hr with hr | hr | hr <;> simp [invocable, detect, hr, handlerReasons]
+    invocableS h i = false := by
+  rcases hr with hr | hr | hr <;> simp [invocableS, detect, hr, handlerReasons]
 
 /-- Resume handlers never on creation; on objects being deleted only when opted in;
     and only for a first sight. -/
-theorem resume_needs_initial_and_optin (h : Handler) (i : In) (hi : h.initial = true)
-    (hinv : invocable h i = true) :
+theorem resume_needs_initial_and_optin (h : Shape) (i : In) (hi : h.initial = true)
+    (hinv : invocableS h i = true) :
     i.initial = true ∧ detectReason i ≠ .create ∧ (i.marked = true → h.deletedOptIn = true) := by
   rcases i with ⟨d, m, b, o, df, ini⟩
-  rcases h with ⟨hr, hi', hd⟩
+  rcases h with ⟨hr, hi', hd, hn⟩
   cases d <;> cases m <;> cases b <;> cases o <;> cases df <;> cases ini <;> cases hd <;>
-    simp_all [invocable, detect, detectReason, gate, handlerReasons]
+    simp_all [invocableS, detect, detectReason, gateS, handlerReasons]
 
 /-- Handler kinds with a reason are mutually exclusive in one event. -/
-theorem kinds_exclusive (h₁ h₂ : Handler) (i : In) (r₁ r₂ : Reason)
+theorem kinds_exclusive (h₁ h₂ : Shape) (i : In) (r₁ r₂ : Reason)
     (e₁ : h₁.reason = some r₁) (e₂ : h₂.reason = some r₂)
-    (i₁ : invocable h₁ i = true) (i₂ : invocable h₂ i = true) : r₁ = r₂ := by
+    (i₁ : invocableS h₁ i = true) (i₂ : invocableS h₂ i = true) : r₁ = r₂ := by
   have a₁ : r₁ = (detect i).reason := by
-    simp [invocable, gate, e₁] at i₁; exact i₁.2.1.1
+    simp [invocableS, gateS, e₁] at i₁; exact i₁.2.1.1
   have a₂ : r₂ = (detect i).reason := by
-    simp [invocable, gate, e₂] at i₂; exact i₂.2.1.1
+    simp [invocableS, gateS, e₂] at i₂; exact i₂.2.1.1
   rw [a₁, a₂]
 
 -- non-vacuity: the hypotheses are met by concrete inputs
-example : invocable ⟨some .delete, false, false⟩ ⟨false, true, true, false, false, false⟩ = true := by decide
-example : invocable ⟨none, true, true⟩ ⟨false, true, true, false, false, true⟩ = true := by decide
-example : invocable ⟨some .update, false, false⟩ ⟨false, false, false, false, true, true⟩ = true := by decide
+example : invocableS ⟨some .delete, false, false, false⟩ ⟨false, true, true, false, false, false⟩ = true := by decide
+example : invocableS ⟨none, true, true, false⟩ ⟨false, true, true, false, false, true⟩ = true := by decide
+example : invocableS ⟨some .update, false, false, true⟩ ⟨false, false, false, false, true, true⟩ = true := by decide
+-- sub-handlers: of a deletion handler in the deletion cause; of an update handler (inheriting) in an update
+example : subInvocable ⟨some .delete, false, false, false⟩ plainSub ⟨false, true, true, false, true, false⟩ = true := by decide
+example : subInvocable ⟨some .update, false, false, true⟩ (subOf ⟨some .update, false, false, true⟩)
+    ⟨false, false, true, false, true, false⟩ = true := by decide
+-- `wellFormed` is needed in `sub_follows_parent`: a (non-constructible) resuming handler that needs a change
+-- would run on a marked object while its inheriting sub-handler is held back
+example : invocableS ⟨none, true, true, true⟩ ⟨false, true, true, false, false, true⟩ = true ∧
+    subInvocable ⟨none, true, true, true⟩ (subOf ⟨none, true, true, true⟩) ⟨false, true, true, false, false, true⟩ = false := by decide
+example : decorated ⟨some .delete, false, false, false⟩ = true := by decide
 
 end Kopf.C05
